@@ -25,7 +25,8 @@ FieldsEqual(kind, x, y) ==
   CASE kind = "term" -> x.co = y.co /\ x.c = y.c
     [] kind = "list" -> BagEq(x.terms, y.terms)
     [] kind = "contract" -> Rng(x.inv) = Rng(y.inv) /\ Rng(x.outv) = Rng(y.outv) /\ BagEq(x.a, y.a) /\ BagEq(x.g, y.g)
-    [] kind = "compound" -> Rng(x.inv) = Rng(y.inv) /\ Rng(x.outv) = Rng(y.outv) /\ UnionEq(x.a, y.a) /\ UnionEq(x.g, y.g)
+    [] kind = "compound" -> Rng(x.inv) = Rng(y.inv) /\ Rng(x.outv) = Rng(y.outv) /\ UnionEq(x.a, y.a)
+                            /\ x.gv = y.gv /\ UnionEq(x.g, y.g)          \* gv: the variable the guarantee intervals speak about
 \* e: [kind, objs, eq (matrix of "true"/"false"/exception class), hash, copies (pairs)]
 N(e) == Len(e.objs)
 EqJudge(e) ==
